@@ -118,7 +118,7 @@ class ModuleInfo:
 
 import os as _os
 _FOLD_ARGS = _os.environ.get("VERIF_FOLD_ARGS", "1") == "1"
-_FOLD_IFS = _os.environ.get("VERIF_FOLD_IFS", "0") == "1"
+_FOLD_IFS = _os.environ.get("VERIF_FOLD_IFS", "1") == "1"
 
 
 def _fold_returned_temporaries(tree: ast.AST) -> None:
@@ -130,7 +130,10 @@ def _fold_returned_temporaries(tree: ast.AST) -> None:
 
     Likewise `t = <expr>` immediately followed by a statement whose value is a call with `t` as
     its first argument, t bound once and read once: read as the call with `<expr>` in that place
-    (94 sites of the tree as it stands; VERIF_FOLD_ARGS=0 switches this second fold off)."""
+    (94 sites of the tree as it stands; VERIF_FOLD_ARGS=0 switches this second fold off).
+
+    And `if c: x = A` / `else: x = B` (one assignment to the same plain name in each arm, not the
+    last arm of an elif chain) is read as `x = A if c else B` (22 sites; VERIF_FOLD_IFS=0)."""
     for fn in ast.walk(tree):
         if not isinstance(fn, (ast.FunctionDef, ast.AsyncFunctionDef)):
             continue
@@ -146,7 +149,7 @@ def _fold_returned_temporaries(tree: ast.AST) -> None:
                 body = getattr(holder, field, None)
                 if not isinstance(body, list):
                     continue
-                if _FOLD_IFS:
+                if _FOLD_IFS and not (isinstance(holder, ast.If) and field == "orelse" and len(body) == 1):  # not the last arm of an elif chain
                     for j, st in enumerate(body):
                         if isinstance(st, ast.If) and len(st.body) == 1 and len(st.orelse) == 1 and all(isinstance(x, ast.Assign) and len(x.targets) == 1 and isinstance(x.targets[0], ast.Name) for x in (st.body[0], st.orelse[0])) \
                                 and st.body[0].targets[0].id == st.orelse[0].targets[0].id:
